@@ -84,9 +84,27 @@ func (e *sx) prim() string {
 	return e.String() // ~~x is a valid setPrimary
 }
 
+type lapred struct {
+	NT  string `json:"nt"`
+	Not bool   `json:"not,omitempty"`
+}
+
 type sitem struct {
-	Sym string `json:"sym,omitempty"`
-	Set *sx    `json:"set,omitempty"`
+	Sym string   `json:"sym,omitempty"`
+	Set *sx      `json:"set,omitempty"`
+	LA  []lapred `json:"la,omitempty"` // (?= X & !Y ...)
+}
+
+func (it sitem) laText() string {
+	var ps []string
+	for _, p := range it.LA {
+		if p.Not {
+			ps = append(ps, "!"+p.NT)
+		} else {
+			ps = append(ps, p.NT)
+		}
+	}
+	return "(?= " + strings.Join(ps, " & ") + ")"
 }
 
 type srule struct {
@@ -165,6 +183,8 @@ func (s *spec) text() string {
 				}
 				if it.Set != nil {
 					fmt.Fprintf(&sb, "set(%s)", it.Set)
+				} else if it.LA != nil {
+					sb.WriteString(it.laText())
 				} else {
 					sb.WriteString(it.Sym)
 				}
@@ -624,6 +644,52 @@ func showcase() []*spec {
 	}
 }
 
+// lookaheadGrammars: X2 and X3 are reachable from the input X1 only through a lookahead predicate
+// (plain, negated, as either conjunct), placed at the start, in the middle or at the end of a rule;
+// tc occurs only inside them. X3 is used by the predicate directly or only through X2.
+func lookaheadGrammars() []*spec {
+	la := func(ps ...lapred) sitem { return sitem{LA: ps} }
+	p, n := func(nt string) lapred { return lapred{NT: nt} }, func(nt string) lapred { return lapred{NT: nt, Not: true} }
+	preds := []sitem{
+		la(p("X2")), la(n("X2")), la(p("X3"), n("X2")), la(n("X2"), p("X3")), la(n("X2"), n("X3")), la(p("X2"), p("X3")),
+		la(n("X3")), la(p("X3")),
+	}
+	x2Bodies := [][]string{
+		{"X2 : tb tc", "X2 : X2 ta"},
+		{"X2 : tb X3 tc", "X2 :"},
+		{"X2 : X3 X3 tb"},
+	}
+	var out []*spec
+	for _, pred := range preds {
+		for pos := 0; pos < 3; pos++ {
+			for _, x2 := range x2Bodies {
+				for _, second := range []bool{false, true} {
+					s := &spec{Terms: []string{"ta", "tb", "tc", "td"}, NTs: []string{"X1", "X2", "X3"}, Inputs: []sinput{{NT: "X1"}}}
+					if second {
+						s.Inputs = []sinput{{NT: "X3", NoEoi: true}, {NT: "X1"}}
+					}
+					items := []sitem{{Sym: "ta"}, {Sym: "td"}}
+					var rhs []sitem
+					rhs = append(rhs, items[:pos]...)
+					rhs = append(rhs, pred)
+					rhs = append(rhs, items[pos:]...)
+					s.Rules = append(s.Rules, srule{LHS: "X1", RHS: rhs}, srule{LHS: "X1", RHS: []sitem{{Sym: "X1"}, {Sym: "tb"}}})
+					for _, r := range append(append([]string{}, x2...), "X3 : tc ta", "X3 : td") {
+						f := strings.Fields(r)
+						sr := srule{LHS: f[0]}
+						for _, x := range f[2:] {
+							sr.RHS = append(sr.RHS, sitem{Sym: x})
+						}
+						s.Rules = append(s.Rules, sr)
+					}
+					out = append(out, s)
+				}
+			}
+		}
+	}
+	return out
+}
+
 func literals(at []*sx) []*sx {
 	var out []*sx
 	for _, a := range at {
@@ -681,10 +747,11 @@ func run(c *core.Ctx) {
 	c.Rule("phase A: every reduced gramenum grammar of the scope x 5 input configurations x {plain, last terminal = error} with every atom, its complement " +
 		"and 2 compounds per atom; phase B: 3 showcase grammars x all expressions with <=2 literals (atom or ~atom) x {plain, complemented} and all " +
 		"3-literal expressions over 8 literals; phase C: systems of 1..3 named sets whose definitions range over 20..40 templates mentioning each other; " +
-		"phase D: set(expr) inside a rule for every literal, also self-dependent. 20 %generate per text. evaluations = grammar texts (all distinct, each with ~20 named sets); nontrivial = texts with at least one " +
+		"phase D: set(expr) inside a rule for every literal, also self-dependent; phase E: 144 grammars whose nonterminals X2, X3 are reachable only through a lookahead predicate (8 predicates with negations and conjunctions x 3 positions x 3 bodies x 2 input lists) with every atom, complement and compound. 20 %generate per text. evaluations = grammar texts (all distinct, each with ~20 named sets); nontrivial = texts with at least one " +
 		"named set whose value is neither empty nor the whole terminal universe (the per-expression count is distinct_expression_value_pairs)")
 	c.Assume("the complement universe is every terminal of the grammar: eoi, invalid_token, error and all lexer tokens (sides with syntax/set.go; no documentation)")
 	c.Assume("follow/precede never contain eoi; `any` of a nonterminal = terminals occurring in the rules reachable from it; an empty set(...) inside a rule derives the empty string (sides with the implementation)")
+	c.Assume("a lookahead marker (?= X & !Y) is an empty (nullable) symbol with empty first/last/any; every nonterminal named in it, negated or not, counts as reachable, so its rules take part in all fixpoints (this is what HEAD does)")
 	c.Assume("%assert directives are parsed and resolved but never enforced by the compiler (compiler/syntax.go collects them, nothing reads them): only their non-interference is checked")
 
 	var mu sync.Mutex
@@ -957,6 +1024,23 @@ func run(c *core.Ctx) {
 		runSpecs(specs)
 	}
 	c.Outcome("phaseD-texts", nTexts-before)
+
+	// ---- phase E: nonterminals reachable only through lookahead predicates
+	before = nTexts
+	for _, base := range lookaheadGrammars() {
+		if c.Expired() {
+			c.Capped("phase E cut short (budget)")
+			break
+		}
+		at := atomsOf(base)
+		exprs := append([]*sx{}, at...)
+		for _, a := range at {
+			exprs = append(exprs, not(a))
+		}
+		exprs = append(exprs, compoundsOf(at)...)
+		runSpecs(withSets(base, exprs, "E"))
+	}
+	c.Outcome("phaseE-texts", nTexts-before)
 
 	if !c.Quick() {
 		before = nTexts
